@@ -75,6 +75,10 @@ func (s *objectStore) Save(cluster string, condition *proxyv1alpha1.RateLimitCon
 }
 
 func (s *objectStore) Delete(cluster, name string) error {
+	// not while a flush is writing its snapshot of the local store: it would write the deleted condition back
+	s.Lock()
+	defer s.Unlock()
+
 	err := retry.RetryOnConflict(retry.DefaultRetry, func() (err error) {
 		err = s.gatewayClient.ProxyV1alpha1().RateLimitConditions().Delete(context.Background(), name, v1.DeleteOptions{})
 		if err == nil || errors.IsNotFound(err) {
@@ -89,6 +93,10 @@ func (s *objectStore) Delete(cluster, name string) error {
 }
 
 func (s *objectStore) DeleteUpstream(cluster string) error {
+	// see Delete
+	s.Lock()
+	defer s.Unlock()
+
 	itemsToDelete := s.localStore.ListUpstream(cluster)
 	for _, item := range itemsToDelete {
 		err := retry.RetryOnConflict(retry.DefaultRetry, func() (err error) {
